@@ -105,6 +105,15 @@ func workload(op, in, base string) (err string) {
 		sp.Set("k", "w")
 		sp.Delete("k")
 		_ = u.Href(false)
+		// every list operation on the FULL list, each on its own copy: names that occur throughout the list (not only at its end)
+		for _, f := range []func(*url.SearchParams){
+			func(l *url.SearchParams) { l.Delete("a") }, func(l *url.SearchParams) { l.Delete("b") }, func(l *url.SearchParams) { l.Set("a", "x") },
+			func(l *url.SearchParams) { l.Set("b", "x") }, func(l *url.SearchParams) { l.SortAbsolute() }, func(l *url.SearchParams) { _ = l.GetAll("a"); _ = l.Has("zz") },
+		} {
+			c := u.Clone()
+			f(c.SearchParams())
+			_ = c.Href(false)
+		}
 	}
 	c := u.Clone()
 	_ = c.Href(false)
